@@ -455,7 +455,9 @@ impl<'a> RawFile<'a> {
                 warnings,
             );
         }
-        if s.ne > 255 {
+        // TFtoPL.2014.21: `if ne>256 then abort`. A file can contain 256 extensible recipes
+        // (indices 0 through 255), and PLtoTF writes such files.
+        if s.ne > 256 {
             return (
                 Err(DeserializationError::TooManyExtensibleCharacters(s.ne)),
                 warnings,
